@@ -1,9 +1,11 @@
 #!/bin/sh
 # every stored seed against the quick check of its own property (sequential: patches are applied to /repo and undone)
 cd /verif
-out=work/seeds_summary.log
+# usage: run_all_seeds.sh [glob-of-seed-ids] [summary-file]   (default: all seeds, work/seeds_summary.log)
+pat="${1:-*}"
+out="${2:-work/seeds_summary.log}"
 : > $out
-for d in seeded/*/; do
+for d in seeded/$pat/; do
   sid=$(basename $d)
   prop=$(python3 -c "import json;print(json.load(open('$d/meta.json'))['property'])")
   if ! git -C /repo apply --check "/verif/$d/patch.diff" 2>/dev/null; then echo "$sid $prop PATCH-DOES-NOT-APPLY" >> $out; continue; fi
